@@ -3,6 +3,7 @@ import BoboVerif.Lemmas.Remote
 import BoboVerif.Lemmas.RunChange
 import BoboVerif.Lemmas.LocalStarts
 import BoboVerif.Lemmas.LocalExact
+import BoboVerif.Lemmas.IdInv
 /-!
 C03 — Replication is transparent and survivors take over (failover equivalence).
 
@@ -237,12 +238,6 @@ theorem replica_mirrors_memory (c : Cfg ε) (hc : c.caching = true) (hns : NoSin
 
 /-! ### every split of every stream: the lockstep invariant -/
 
-/-- the same rules with another run-identifier source (each instance hands out its own identifiers). -/
-def withIds (c : Cfg ε) (f : Nat → String) : Cfg ε := { c with idOf := f }
-
-theorem remoteStep_ids (c : Cfg ε) (f g : Nat → String) :
-    remoteStep (withIds c f) = (remoteStep (withIds c g) : DState ε → _) := rfl
-
 /-- identifier hygiene of one originator step (all consequences of run identifiers being unique, C12) and
 no eviction from the finished-run memory during it. -/
 structure Hygiene (c : Cfg ε) (a a' : DState ε) (nt : Notif ε) : Prop where
@@ -333,6 +328,87 @@ theorem split_stream_mirror (c : Cfg ε) (hc : c.caching = true) (hns : NoSing c
       simp [Table.runAt, Table.runsFrom, lookup] at hr⟩
   | stepA _ hA hB hyg ih => exact lockInv_step c hc hns hcw fA fB _ _ _ _ _ _ _ _ ih hA hB hyg
   | stepB _ hB hA hyg ih => exact (lockInv_step c hc hns hcw fB fA _ _ _ _ _ _ _ _ ih.symm hB hA hyg).symm
+
+/-! ### … and the identifier hygiene is not an assumption: it follows from collision-free generators -/
+
+/-- the finished-run memory has room for what this step announces ("memory large enough"). -/
+structure Room (c : Cfg ε) (a : DState ε) (nt : Notif ε) : Prop where
+  evC : a.cacheC.length + nt.completed.length ≤ c.maxCache
+  evH : a.cacheH.length + nt.halted.length ≤ c.maxCache
+
+/-- lockstep execution of two instances over any split of any stream, assuming per step only `Room`. -/
+inductive LockR (c : Cfg ε) (fA fB : Nat → String) : DState ε → DState ε → Prop
+  | init : LockR c fA fB {} {}
+  | stepA {a b a' b' : DState ε} {e : ε} {nt nB : Notif ε} {ch : Bool} (h : LockR c fA fB a b)
+      (hA : localStep (withIds c fA) a e = some (a', nt, ch))
+      (hB : remoteStep (withIds c fB) b nt.completed nt.halted nt.updated = some (b', nB))
+      (room : Room c a nt) : LockR c fA fB a' b'
+  | stepB {a b a' b' : DState ε} {e : ε} {nt nA : Notif ε} {ch : Bool} (h : LockR c fA fB a b)
+      (hB : localStep (withIds c fB) b e = some (b', nt, ch))
+      (hA : remoteStep (withIds c fA) a nt.completed nt.halted nt.updated = some (a', nA))
+      (room : Room c b nt) : LockR c fA fB a' b'
+
+/-- the mirror invariant together with the identifier discipline of both instances. -/
+structure LockInvIds (c : Cfg ε) (fA fB : Nat → String) (a b : DState ε) : Prop where
+  inv : LockInv c a b
+  idsA : IdInv c fA fB a.nextId b.nextId a
+  idsB : IdInv c fA fB a.nextId b.nextId b
+
+theorem LockInvIds.symm {c : Cfg ε} {fA fB : Nat → String} {a b : DState ε} (h : LockInvIds c fA fB a b) :
+    LockInvIds c fB fA b a := ⟨h.inv.symm, h.idsB.symm, h.idsA.symm⟩
+
+theorem lockInvIds_step (c : Cfg ε) (hc : c.caching = true) (hns : NoSing c) (hcw : CfgWF c) (f g : Nat → String)
+    (G : Gens f g) (a b a' b' : DState ε) (e : ε) (nt nB : Notif ε) (ch : Bool) (h : LockInvIds c f g a b)
+    (hA : localStep (withIds c f) a e = some (a', nt, ch))
+    (hB : remoteStep (withIds c g) b nt.completed nt.halted nt.updated = some (b', nB))
+    (room : Room c a nt) : LockInvIds c f g a' b' := by
+  have hliveAll : ∀ ph pa id r, a.table.runAt ph pa id = some r → r.run.halted = false :=
+    fun ph pa id r hr => h.inv.liveA ph pa id r (h.idsA.known ph pa id r hr) hr
+  obtain ⟨_, hmem, hsep, hfin, hidsA'⟩ := local_ids c hc hcw f g G a a' e nt ch b.nextId h.inv.wfA hliveAll h.idsA hA
+    room.evC room.evH
+  have hyg : Hygiene c a a' nt := ⟨room.evC, room.evH, hmem, hsep, hfin⟩
+  have hinv' := lockInv_step c hc hns hcw f g a b a' b' e nt nB ch h.inv hA hB hyg
+  obtain ⟨hnx, hfr⟩ := remote_frame ahead true (withIds c g) b b' _ _ _ nB hB
+  have hknownB : ∀ ph pa id r, b'.table.runAt ph pa id = some r → (c.getPattern ph pa).isSome = true := by
+    intro ph pa id r hr
+    cases hp : c.getPattern ph pa with
+    | some p => rfl
+    | none =>
+      rw [hfr ph pa id hp] at hr
+      have := h.idsB.known ph pa id r hr
+      rw [hp] at this; exact this
+  have toA : ∀ ph pa id r, b'.table.runAt ph pa id = some r → a'.table.runAt ph pa id = some r := by
+    intro ph pa id r hr
+    rw [← hinv'.mirror.runs ph pa id (hknownB ph pa id r hr)]; exact hr
+  refine ⟨hinv', hnx ▸ hidsA', hnx ▸ ⟨hknownB, ?_, ?_, ?_, ?_⟩⟩
+  · exact fun ph pa id r hr => hidsA'.tbl ph pa id r (toA ph pa id r hr)
+  · intro id hm
+    rw [hinv'.mirror.memC, hinv'.mirror.memH] at hm
+    exact hidsA'.mem id hm
+  · exact fun ph pa ph' pa' id r r' hr hr' => hidsA'.uniq ph pa ph' pa' id r r' (toA _ _ _ r hr) (toA _ _ _ r' hr')
+  · intro ph pa id r hr
+    rw [hinv'.mirror.memC, hinv'.mirror.memH]
+    exact hidsA'.fresh ph pa id r (toA _ _ _ r hr)
+
+/-- **every split of every stream keeps the two instances identical — identifier hygiene derived.**  As
+`split_stream_mirror`, but the only assumptions left are about the environment: the two identifier generators
+never repeat and never collide (`Gens`, what C16 proves of the generator in /repo), and the finished-run memory
+has room at every step (`Room`, as the property states).  The identifier discipline `IdInv` (only known keys are
+stored; every stored or remembered identifier was issued; no identifier under two keys; no stored run remembered
+as finished) is an invariant of the lockstep execution, and it yields the hygiene of every notification. -/
+theorem split_stream_mirror_ids (c : Cfg ε) (hc : c.caching = true) (hns : NoSing c) (hcw : CfgWF c)
+    (fA fB : Nat → String) (G : Gens fA fB) (a b : DState ε) (h : LockR c fA fB a b) : LockInvIds c fA fB a b := by
+  induction h with
+  | init =>
+    have hnone : ∀ ph pa id (r : LRun ε), ({} : DState ε).table.runAt ph pa id = some r → False := by
+      intro ph pa id r hr; simp [Table.runAt, Table.runsFrom, lookup] at hr
+    have hid : IdInv c fA fB 0 0 ({} : DState ε) :=
+      ⟨fun ph pa id r hr => (hnone ph pa id r hr).elim, fun ph pa id r hr => (hnone ph pa id r hr).elim,
+       fun id hm => by simp [inCache] at hm, fun ph pa _ _ id r _ hr _ => (hnone ph pa id r hr).elim,
+       fun ph pa id r hr => (hnone ph pa id r hr).elim⟩
+    exact ⟨⟨⟨fun _ _ _ _ => rfl, rfl, rfl⟩, wf_empty, wf_empty, fun ph pa id r _ hr => (hnone ph pa id r hr).elim⟩, hid, hid⟩
+  | stepA _ hA hB room ih => exact lockInvIds_step c hc hns hcw fA fB G _ _ _ _ _ _ _ _ ih hA hB room
+  | stepB _ hB hA room ih => exact (lockInvIds_step c hc hns hcw fB fA G.symm _ _ _ _ _ _ _ _ ih.symm hB hA room).symm
 
 /-! non-vacuity of `replica_mirrors_runs`: a concrete two-pattern configuration and a step that halts one run and starts another -/
 section example_
@@ -432,6 +508,72 @@ example : ∃ sA' nt ch sB' nB, localStep exCfg exS 7 = some (sA', nt, ch) ∧
       rw [e1, e2, e3]; exact hfinx)
     (fun _ _ _ _ => rfl)
   exact ⟨sA', nt, ch, sB', nB, hA, hhalt, hupd, hB, hT⟩
+/-! non-vacuity of `split_stream_mirror_ids`: concrete collision-free generators and a reachable non-trivial state -/
+def gA (k : Nat) : String := String.ofList (List.replicate k 'a')
+def gB (k : Nat) : String := String.ofList ('b' :: List.replicate k 'a')
+theorem exGens : Gens gA gB := by
+  refine ⟨?_, ?_, ?_⟩
+  · intro i j h
+    have := congrArg String.toList h
+    simp only [gA, String.toList_ofList] at this
+    have := congrArg List.length this
+    simpa using this
+  · intro i j h
+    have := congrArg String.toList h
+    simp only [gB, String.toList_ofList] at this
+    have := congrArg List.length this
+    simpa using this
+  · intro i j h
+    have := congrArg String.toList h
+    simp only [gA, gB, String.toList_ofList] at this
+    cases i with
+    | zero => simp at this
+    | succ n => simp [List.replicate_succ] at this
+
+/-- one lockstep step as a function (for the concrete example only). -/
+def stepPair {ε} (cA cB : Cfg ε) (a b : DState ε) (e : ε) : Option (DState ε × DState ε × Notif ε × Notif ε × Bool) :=
+  match localStep cA a e with
+  | none => none
+  | some (a', nt, ch) =>
+    match remoteStep cB b nt.completed nt.halted nt.updated with
+    | none => none
+    | some (b', nB) => some (a', b', nt, nB, ch)
+
+theorem stepPair_spec {ε} (cA cB : Cfg ε) (a b a' b' : DState ε) (e : ε) (nt nB : Notif ε) (ch : Bool)
+    (h : stepPair cA cB a b e = some (a', b', nt, nB, ch)) :
+    localStep cA a e = some (a', nt, ch) ∧ remoteStep cB b nt.completed nt.halted nt.updated = some (b', nB) := by
+  unfold stepPair at h
+  cases hA : localStep cA a e with
+  | none => simp [hA] at h
+  | some v =>
+    obtain ⟨a1, nt1, ch1⟩ := v
+    simp only [hA] at h
+    cases hB : remoteStep cB b nt1.completed nt1.halted nt1.updated with
+    | none => simp [hB] at h
+    | some w =>
+      obtain ⟨b1, nB1⟩ := w
+      simp only [hB, Option.some.injEq, Prod.mk.injEq] at h
+      obtain ⟨e1, e2, e3, e4, e5⟩ := h
+      subst e1 e2 e3 e4 e5
+      exact ⟨rfl, hB⟩
+
+/-- `LockR` reaches non-trivial states with concrete collision-free generators: after the first instance has
+processed event 0 (starting a run of p1 under its first identifier) both instances hold that run, and the
+invariant theorem applies. -/
+example : ∃ a b, LockR exCfg gA gB a b ∧ (a.table.runAt "ph" "p1" (gA 0)).isSome = true ∧
+    (b.table.runAt "ph" "p1" (gA 0)).isSome = true ∧ LockInvIds exCfg gA gB a b := by
+  have hsome : (stepPair (withIds exCfg gA) (withIds exCfg gB) {} {} 0).isSome = true := by decide
+  obtain ⟨⟨a', b', nt, nB, ch⟩, hp⟩ := Option.isSome_iff_exists.mp hsome
+  have hfacts : ((stepPair (withIds exCfg gA) (withIds exCfg gB) {} {} 0).map (fun r =>
+      ((r.1.table.runAt "ph" "p1" (gA 0)).isSome, (r.2.1.table.runAt "ph" "p1" (gA 0)).isSome,
+        r.2.2.1.completed.length, r.2.2.1.halted.length))) = some (true, true, 0, 0) := by decide
+  rw [hp] at hfacts
+  simp only [Option.map_some, Option.some.injEq, Prod.mk.injEq] at hfacts
+  obtain ⟨f1, f2, f3, f4⟩ := hfacts
+  obtain ⟨hA, hB⟩ := stepPair_spec _ _ _ _ _ _ _ _ _ _ hp
+  have hl : LockR exCfg gA gB a' b' :=
+    LockR.stepA LockR.init hA hB ⟨by rw [f3]; decide, by rw [f4]; decide⟩
+  exact ⟨a', b', hl, f1, f2, split_stream_mirror_ids exCfg (by decide) exNoSing exCfgWF gA gB exGens a' b' hl⟩
 end example_
 
 end Bobo.Decider
